@@ -556,7 +556,11 @@ class Ctx:
             ev["coverage"]["broken"] = [w + ": " + d[:500] for w, d in self.broken]
         if seen_known:
             ev["coverage"]["known_findings_exhibited"] = sorted(seen_known)
-        with open(os.path.join(ROOT, "evidence", self.prop + ".json"), "w") as fh:
+        # evidence/<id>.json describes runs against /repo itself; a run against a scratch worktree (VERIF_REPO)
+        # must not overwrite it
+        evdir = os.path.join(ROOT, "evidence") if os.path.realpath(REPO) == "/repo" else os.path.join(BUILD, "evidence-scratch")
+        os.makedirs(evdir, exist_ok=True)
+        with open(os.path.join(evdir, self.prop + ".json"), "w") as fh:
             json.dump(ev, fh, indent=1)
         for l in lines:
             print(l, flush=True)
